@@ -195,6 +195,36 @@ def vo_ok(rel_v: str) -> bool:
     return rc == 0
 
 
+def vo_closure(src: Path) -> list[Path] | None:
+    """The .vo files of this development that `src` (a .v file) depends on, through its `From BQ Require ...` /
+    `Require BQ....` sentences, transitively.  None when a referenced module cannot be resolved (caller falls back to
+    every .vo): the extracted binaries are rebuilt only when something they are extracted from has changed."""
+    seen: dict[Path, None] = {}
+    todo = [src]
+    while todo:
+        f = todo.pop()
+        try:
+            txt = re.sub(r'\(\*.*?\*\)', ' ', f.read_text(), flags=re.S)
+        except OSError:
+            return None
+        for m in re.finditer(r'(From\s+BQ\s+)?Require\s+(?:Import\s+|Export\s+)?(.*?)\.(?=\s|$)', txt, flags=re.S):
+            frombq = bool(m.group(1))
+            for name in m.group(2).split():
+                if name.startswith('BQ.'):
+                    rel = name[3:]
+                elif frombq:
+                    rel = name
+                else:
+                    continue            # a library of Coq itself or of user-contrib
+                v = COQ / (rel.replace('.', '/') + '.v')
+                if not v.exists():
+                    return None
+                if v not in seen:
+                    seen[v] = None
+                    todo.append(v)
+    return [v.with_suffix('.vo') for v in seen]
+
+
 def build_extracted(name: str) -> tuple[bool, str]:
     """coq/extract/<name>.v (Extraction "<name>_model.ml" ...) +
     coq/extract/<name>_driver.ml -> build/bin/<name>."""
@@ -204,9 +234,10 @@ def build_extracted(name: str) -> tuple[bool, str]:
     out_dir.mkdir(parents=True, exist_ok=True)
     binp = BUILD / 'bin' / name
     binp.parent.mkdir(parents=True, exist_ok=True)
+    deps = vo_closure(src_v)
     newest = max(
-        [src_v.stat().st_mtime, src_ml.stat().st_mtime]
-        + [p.stat().st_mtime for p in COQ.rglob('*.vo')],
+        [src_v.stat().st_mtime, src_ml.stat().st_mtime, (COQ / 'extract' / 'common.ml').stat().st_mtime]
+        + [p.stat().st_mtime for p in (deps if deps is not None else COQ.rglob('*.vo')) if p.exists()],
     )
     if binp.exists() and binp.stat().st_mtime >= newest:
         return True, ''
